@@ -18,6 +18,56 @@ def pat(p, n):
     return _pat_cache[k]
 
 
+def gen_raw_script(rnd, is_async, allow_big, ops):
+    """io_mode raw / asynchronous_raw: the application writes the CGI-style header block itself, cut anywhere across writes and
+    flushes; the library parses it out of the stream and the protocol layer frames the rest."""
+    mode = 4 if is_async else 2
+    ops.append("m%d" % mode)
+    if is_async and rnd.random() < 0.5:
+        ops.append("a%d" % rnd.choice([0, 1]))
+    headers = []
+    block = b""
+    if rnd.random() < 0.5:
+        block += b"Status: 200 OK\r\n"
+    block += b"Content-Type: text/plain\r\n"
+    for i in range(rnd.choice([0, 1, 3])):
+        n = b"X-Raw%d" % i
+        v = rnd.choice([b"v", b"two words", b"b" * 300, b"semi;colon=1"])
+        headers.append((n, v))
+        block += n + rnd.choice([b": ", b":"]) + v + b"\r\n"
+    block += b"\r\n"
+    expected = bytearray()
+    tail = rnd.choice([b"", b"", b"B", b"body-in-the-same-write\r\n\r\nX: y\r\n"])
+    lit = block + tail
+    expected += tail
+    # cut the literal anywhere (also inside CRLF CRLF)
+    cuts = sorted(set(rnd.randrange(1, len(lit)) for _ in range(rnd.choice([0, 1, 2, 5, 12]))))
+    if rnd.random() < 0.3:
+        cuts = sorted(set(cuts + [len(block) - 1, len(block) - 2, len(block) - 3]))
+    prev = 0
+    for c in cuts + [len(lit)]:
+        if c <= prev:
+            continue
+        ops.append("L" + lit[prev:c].hex())
+        prev = c
+        r = rnd.random()
+        if r < 0.3:
+            ops.append("f")
+        elif r < 0.4 and is_async:
+            ops.append("F")
+    pid = rnd.randrange(1, 1000)
+    for i in range(rnd.choice([0, 1, 2, 5])):
+        size = rnd.choice([0, 1, 7, 64, 255, 1000, 4096, 8192, 65535, 65543] if allow_big else [0, 1, 7, 64, 255, 1000, 4096])
+        ops.append("%s%d.%d" % (rnd.choice("wwo"), size, pid + i))
+        expected += pat(pid + i, size)
+        r = rnd.random()
+        if r < 0.25:
+            ops.append("f")
+        elif r < 0.35 and is_async:
+            ops.append("F")
+    return ops, bytes(expected), headers, [], mode
+
+
 def gen_script(rnd, is_async, allow_big):
     ops = []
     expected = bytearray()
@@ -27,6 +77,8 @@ def gen_script(rnd, is_async, allow_big):
     if rnd.random() < 0.6:
         ops.append("b%d" % rnd.choice([0, 1, 2, 64, 1024, 16384, 65536]))
     mode = None
+    if rnd.random() < 0.2:
+        return gen_raw_script(rnd, is_async, allow_big, ops)
     if not is_async:
         if rnd.random() < 0.7:
             mode = rnd.choice([0, 1])
@@ -108,7 +160,7 @@ def worker(args):
             gzip_ok = rnd.random() < 0.4
             ops, expected, headers, cookies, mode = gen_script(rnd, is_async, allow_big=(ci % 3 == 0))
             key = None
-            if rnd.random() < 0.25:
+            if mode not in (2, 4) and rnd.random() < 0.25:
                 key = b"page-%d-%d" % (windex, ci)
                 trig = b"trig-%d-%d" % (windex, ci)
                 k = 0
@@ -151,6 +203,13 @@ def worker(args):
                     data = proto.fcgi_encode(r, keep_conn=False)
                     cproto = "fastcgi"
                 if rd == 2:
+                    # the library sends the response before it stores the page (cache_interface::store_page finalizes first), so a
+                    # handler may still be about to store when its client already has the answer: the rise must not race with that
+                    # store ("store after rise" is a legal order in which the page stays cached). Wait for both handlers to finish.
+                    tk = tok.decode()
+                    if not S.wait_events(lambda evs: sum(1 for e in evs if e.get("token") == tk and e.get("ev") == "written") >= 2, 10):
+                        cnt("page_rounds_inconclusive")
+                        break
                     # raise the trigger through another request, then ask again: the page must be rebuilt
                     rr = proto.Req(method=b"GET", script=b"/writer", query=b"s=R" + trig.hex().encode() + b"&tok=" + tok + b"r", token=tok + b"r")
                     c = srv.Conn(S, "http")
@@ -193,6 +252,8 @@ def worker(args):
                     res["viol"].append({"key": "c03:body-differs-from-what-the-application-wrote:" + where, "detail": "got %d bytes, application wrote %d, first difference at offset %d (round %d)" % (len(plain), len(expected), k, rd), "replay": rp})
                     break
                 cnt("bytes_compared", len(expected))
+                if mode in (2, 4):
+                    cnt("raw_mode_responses")
                 if b"content-length" in hd and int(hd[b"content-length"][0]) != len(body):
                     res["viol"].append({"key": "c03:content-length-wrong:" + where, "detail": "", "replay": rp})
                     break
@@ -206,7 +267,8 @@ def worker(args):
                         if sum(1 for x in got_ck if x.startswith(n + b"=" + v)) != 1:
                             bad = "cookie %r: %r" % (n, got_ck)
                     if bad:
-                        res["viol"].append({"key": "c03:header-or-cookie-missing-or-duplicated:" + where, "detail": bad, "replay": rp})
+                        evs_tok = [e for e in S.events() if tok.decode() in str(e.get("token", ""))]
+                        res["viol"].append({"key": "c03:header-or-cookie-missing-or-duplicated:" + where, "detail": bad + " (round %d) app events for this request: %r; response headers: %r" % (rd, evs_tok[-8:], sorted(hd.items())[:12]), "replay": rp})
                         break
                 if pn == "fastcgi" and d.get("max_record", 0) and len(body) > 65535:
                     cnt("fastcgi_bodies_over_65535")
@@ -259,12 +321,12 @@ def run(ck):
     ck.assumptions += [
         "expected bytes are recomputed by the driver from the script the application executes (deterministic patterns per write); headers/cookies set by the script must appear exactly once",
         "the writev() shim accepts only a scheduled prefix or, on non-blocking descriptors only, reports EAGAIN - both are what a real socket may do",
-        "io modes raw / asynchronous_raw are not driven (the application would have to produce the protocol header block itself)",
+        "io modes raw / asynchronous_raw: the application writes a CGI-style header block (Status/Content-Type/X-Raw*) cut anywhere across writes and flushes, then the body; the page cache is not combined with raw modes",
     ]
     ck.finish("fault_enumeration",
-              "scripts of writes (0..131070 bytes each, via write/<</put), flushes, setbuf(0..65536), io_mode normal/nogzip, full/partial asynchronous buffering, asynchronous flushes, headers and cookies, executed by sync and async "
+              "scripts of writes (0..131070 bytes each, via write/<</put), flushes, setbuf(0..65536), io_mode normal/nogzip/raw/asynchronous_raw (raw: header block written by the application, cut anywhere), full/partial asynchronous buffering, asynchronous flushes, headers and cookies, executed by sync and async "
               "applications over HTTP/1.0, HTTP/1.1 close and keep-alive (chunked), SCGI and FastCGI with and without gzip, under writev schedules (1-byte, tiny, EAGAIN runs, record/chunk boundaries) and slow readers; "
               "independent de-framers validate framing strictly and the body (gunzipped if needed) must equal the concatenation of the writes; page-cache copies must be byte-identical to what was sent and vanish when "
               "their trigger is raised. non-trivial = distinct (protocol, app kind, mode, gzip, schedule kind, cache, >64K) shapes",
               "responses", "shapes", min_evals=1500,
-              required_nonzero=("bytes_compared", "gzip_responses", "chunked_responses", "cached_pages_compared", "short_writes_injected", "would_block_injected", "fastcgi_bodies_over_65535", "cache_hits_seen_by_app"))
+              required_nonzero=("bytes_compared", "gzip_responses", "chunked_responses", "cached_pages_compared", "short_writes_injected", "would_block_injected", "fastcgi_bodies_over_65535", "cache_hits_seen_by_app", "raw_mode_responses"))
